@@ -41,10 +41,12 @@ def catches(handler: ast.ExceptHandler) -> str:
 
 
 class FollowExec(SymExec):
-    def __init__(self, prog: Program, fn: FuncInfo, max_depth: int = 4, max_paths: int = 2048) -> None:
+    def __init__(self, prog: Program, fn: FuncInfo, max_depth: int = 4, max_paths: int = 2048,
+                 anchors: Iterable[str] = ()) -> None:
         super().__init__(max_paths=max_paths)
         self.prog = prog
         self.fn = fn
+        self.anchors = set(ANCHOR_NAMES) | set(anchors)   # functions bound by role: never read into a caller
         self.max_depth = max_depth
         self.guard: list[str] = []      # catch levels of the enclosing try bodies
         self.stack: list[str] = []      # helpers being followed
@@ -57,12 +59,12 @@ class FollowExec(SymExec):
         cls = self.fn.cls
         if isinstance(func, ast.Attribute) and isinstance(func.value, ast.Name) and cls is not None \
                 and func.value.id in ("self", "cls", cls.name) and func.attr.startswith("_") \
-                and not func.attr.startswith("__") and func.attr not in ANCHOR_NAMES:
+                and not func.attr.startswith("__") and func.attr not in self.anchors:
             m = self.prog.resolve_method(cls, func.attr)
             if m is not None and m.cls is not None:
                 return func.attr
         if isinstance(func, ast.Name) and func.id.startswith("_") and func.id in self.fn.module.functions \
-                and func.id not in ANCHOR_NAMES:
+                and func.id not in self.anchors:
             return func.id
         return None
 
@@ -216,10 +218,11 @@ class Walk:
     """One anchored function read through its helpers: the tree with simple helpers spliced in and a
     FollowExec for what is left."""
 
-    def __init__(self, prog: Program, fn: FuncInfo) -> None:
+    def __init__(self, prog: Program, fn: FuncInfo, anchors: Iterable[str] = ()) -> None:
         self.fn = fn
-        self.tree = inline_helpers(prog, fn)
-        self.ex = FollowExec(prog, fn)
+        self.tree = inline_helpers(prog, fn, exclude=anchors)
+        self.spliced: set[str] = set(getattr(self.tree, "_spliced", ()))
+        self.ex = FollowExec(prog, fn, anchors=anchors)
         try:
             self.paths = self.ex.function_paths(self.tree)
         except SymUnsupported as exc:
@@ -267,6 +270,39 @@ class HelperGraph:
                 return None
             out |= sub
         return out
+
+
+    def closure(self, name: str, stop: Iterable[str] = ()) -> set[str]:
+        """`name` and the methods it (transitively) references, not looking through `stop`."""
+        callers: dict[str, set[str]] = {}
+        for callee, refs in self.refs.items():
+            for m, _c in refs:
+                callers.setdefault(m, set()).add(callee)
+        out, work, halt = {name}, [name], set(stop)
+        while work:
+            for c in callers.get(work.pop(), ()):
+                if c not in out and c not in halt:
+                    out.add(c)
+                    work.append(c)
+        return out
+
+
+def callback_target(cb: ast.AST, nested: dict[str, ast.FunctionDef]) -> str | None:
+    """The method `self.<name>` a done-callback expression ends up calling: `self.m`, `lambda t:
+    self.m(...)`, `functools.partial(self.m, ...)` or a nested one-statement def doing the same."""
+    def self_attr(e: ast.AST) -> str | None:
+        return e.attr if isinstance(e, ast.Attribute) and isinstance(e.value, ast.Name) and e.value.id == "self" else None
+
+    if isinstance(cb, ast.Lambda):
+        return self_attr(cb.body.func) if isinstance(cb.body, ast.Call) else None
+    if isinstance(cb, ast.Call) and u(cb.func).split(".")[-1] == "partial" and cb.args:
+        return self_attr(cb.args[0])
+    if isinstance(cb, ast.Name) and cb.id in nested:
+        stmts = [x for x in nested[cb.id].body if not (isinstance(x, ast.Expr) and isinstance(x.value, ast.Constant))]
+        if len(stmts) == 1 and isinstance(stmts[0], (ast.Expr, ast.Return)) and isinstance(stmts[0].value, ast.Call):
+            return self_attr(stmts[0].value.func)
+        return None
+    return self_attr(cb)
 
 
 # ---------------------------------------------------------------------------------------------
